@@ -102,6 +102,13 @@ def run(ctx):
     vlib.mc(ctx, "WarmUp.tla", "MCWarmUp.cfg", workers=2, timeout=300)
     r = vlib.tlc("WarmUp.tla", "MCWarmUpFirst.cfg", workers=1, timeout=300, metadir=os.path.join(ctx.out, "mc-bad"))
     ctx.negative_control(r.violated == "WarmBeforeRead", "model: a warm-up list decided by each pack's first blob must violate WarmBeforeRead")
+    # hot/cold repair as a step machine: with hot files REMOVED (the property's quantifier) the hot store is recreated and the cold
+    # one is never written; the model also records observation O3 (DESIGN 0.4): once hot files can be DAMAGED, the library's rule
+    # (a size mismatch puts the file on both copy lists) overwrites the intact cold copy - not decided by any check
+    vlib.mc(ctx, "HotRepair.tla", "MCHotRepair.cfg", workers=1, timeout=120)
+    vlib.mc(ctx, "HotRepair.tla", "MCHotRepairIgnore.cfg", workers=1, timeout=120)
+    r = vlib.tlc("HotRepair.tla", "MCHotRepairDamaged.cfg", workers=1, timeout=120, metadir=os.path.join(ctx.out, "mc-bad"))
+    ctx.negative_control(r.violated == "ColdIntact", "model: copying size-mismatched files both ways must violate ColdIntact (observation O3)")
     # the configuration is the one file overwritten in place: cold first, then hot; new handles read the hot copy
     vlib.mc(ctx, "HotConfig.tla", "MCHotConfig.cfg", workers=1, timeout=120)
     r = vlib.tlc("HotConfig.tla", "MCHotConfigKeep.cfg", workers=1, timeout=120, metadir=os.path.join(ctx.out, "mc-bad"))
